@@ -93,11 +93,15 @@ class Universe:
             "abs": ("{CWD}/bindings", P(True, cwd + [b])),
             "dotdot": ("x/../bindings", P(False, [["x"], [".", "."], b])),
             "other": ("other", P(False, [list("other")])),
+            # the process has changed its working directory to <root>/c2 before the call: relative directories are
+            # relative to THAT directory (for the model: the absolute location)
+            "cd2": (None, P(True, [list(c) for c in self.model_root] + [list("c2"), b]), "c2"),
+            "cd2_plain": ("bindings", P(True, [list(c) for c in self.model_root] + [list("c2"), b]), "c2"),
         }
 
     def call(self, entry, ty, spelling):
-        real, model = self.spellings()[spelling]
-        c = {"op": "call", "entry": entry, "ty": ty, "dir": model, "spelling": spelling}
+        real, model, *cd = self.spellings()[spelling]
+        c = {"op": "call", "entry": entry, "ty": ty, "dir": model, "spelling": spelling, "cwd_s": cd[0] if cd else None}
         if entry == "export_all_to":
             c["dir_s"] = real if real is not None else "./bindings"
             c["env_s"] = None
@@ -202,7 +206,7 @@ def harness_history(u, hid, steps, init_kind):
     hs = []
     for s in steps:
         if s["op"] == "call":
-            hs.append({"op": "call", "entry": s["entry"], "ty": s["ty"], "env": s["env_s"], "dir": s["dir_s"]})
+            hs.append({"op": "call", "entry": s["entry"], "ty": s["ty"], "env": s["env_s"], "dir": s["dir_s"], "cwd": s.get("cwd_s")})
         elif s["op"] == "putdir":
             hs.append({"op": "put", "kind": "dir", "path": s["path_s"]})
         elif s["op"] == "putfile":
